@@ -79,6 +79,31 @@ theorem C18_celsius_acc (k : Rat) (hk : rne k = k) (h0 : 0 ≤ k) (h1 : k ≤ 10
     |kelvinToCelsius (.flt k) - (k - 27315 / 100)| ≤ 1 / 200 + 1 / 1000000000 :=
   celsius_acc k hk h0 h1
 
+/-- Fahrenheit: `round((k − 273.15)·9/5 + 32)`: within half a degree (+ accumulated binary64 rounding)
+of the exact value, for every kelvin value the temperature fields can carry -/
+theorem C18_fahrenheit_acc (k : Rat) (hk : rne k = k) (h0 : 0 ≤ k) (h1 : k ≤ 1000000) :
+    |kelvinToFahrenheit (.flt k) - ((k - 27315 / 100) * 9 / 5 + 32)| ≤ 1 / 2 + 1 / 1000000 :=
+  fahrenheit_acc k hk h0 h1
+
+/-- psi: `p / 6894.76` (not rounded to decimals): within 1e-8 psi of the exact quotient, for every
+pascal value the pressure fields can carry -/
+theorem C18_psi_acc (p : Rat) (hp : rne p = p) (h0 : -10000000000 ≤ p) (h1 : p ≤ 10000000000) :
+    |pascalToPsi (.flt p) - p * 100 / 689476| ≤ 1 / 100000000 :=
+  psi_acc p hp h0 h1
+
+/-- degrees: `round(r · (180 / math.pi))`: within half a degree (+ accumulated binary64 rounding) of
+`r · 180 / pi64`, where `pi64` is the binary64 value of `math.pi`, for every radian value the angle
+fields can carry -/
+theorem C18_degrees_acc (r : Rat) (hr : rne r = r) (h0 : -10000 ≤ r) (h1 : r ≤ 10000) :
+    |radToDegrees (.flt r) - r * 180 / pi64| ≤ 1 / 2 + 1 / 100000000 :=
+  degrees_acc r hr h0 h1
+
+/-- knots: `round(v · (3600 / 1852), 1)`: within 0.05 kn (+ accumulated binary64 rounding) of the exact
+value, for every m/s value the speed fields can carry -/
+theorem C18_knots_acc (v : Rat) (hv : rne v = v) (h0 : -1000000 ≤ v) (h1 : v ≤ 1000000) :
+    |mpsToKnots (.flt v) - v * 3600 / 1852| ≤ 1 / 20 + 1 / 100000000 :=
+  knots_acc v hv h0 h1
+
 /-- database fact (kernel, regenerated): every field of the four convertible quantities is a NUMBER -/
 theorem C18_db_quantities_numeric :
     Gen.dbPgns.all (fun p => p.fields.all (fun f =>
@@ -88,5 +113,10 @@ theorem C18_db_quantities_numeric :
 -- non-vacuity: 300 K in Celsius, 1 rad in degrees
 example : kelvinToCelsius (.int 300) = rne (2685 / 100) := by decide +kernel
 example : radToDegrees (.int 1) = 57 := by decide +kernel
+-- 300 K in Fahrenheit, 10 m/s in knots, 1 bar in psi (here equal to the singly rounded exact quotient)
+example : kelvinToFahrenheit (.int 300) = 80 := by decide +kernel
+example : mpsToKnots (.int 10) = rne (194 / 10) := by decide +kernel
+example : pascalToPsi (.int 100000) = rne (10000000 / 689476) := by decide +kernel
+example : |pascalToPsi (.int 100000) - 145 / 10| ≤ 1 / 100 := by decide +kernel
 
 end N2k.Dec
